@@ -58,7 +58,7 @@ CHECKS = {
  "C04": C("proof",
     "23 theorems over R about AugLag.v (the default compositions of type-erased-problem.tpp selected by an arbitrary provides-mask, with a call log): every evaluation equals the closed form for EVERY mask, scalar-Sigma path = vector path, m=0 shortcuts, "
     "only provided members are called, Hessian-product availability, (y_hat-y)/Sigma identity, multiplier signs, 1-D penalty derivative and derivative of psi along any line. Correspondence: all 128 masks x 5 routes (direct, ProblemWithCounters, FunctionalProblem...) at binary64; oracle: closed forms from f, grad f, g, Jg and finite differences.",
-    "4/C04", TB_REALS + CORR + "optional members are assumed equal to their closed forms when supplied (provider obligation); CasADi and C-ABI loaders not exercised here (C-ABI under C20); multivariate chain rule reduced to line derivatives.",
+    "4/C04", TB_REALS + CORR + "optional members are assumed equal to their closed forms when supplied (provider obligation); the real CasADiProblem is run on plug-ins implementing the CasADi generated-code ABI from closed forms and on the repository's CasADi-generated Rosenbrock file (libcasadi and CasADiControlProblem are not run); C-ABI loader under C20; multivariate chain rule reduced to line derivatives.",
     "Coq proofs for all provider masks + differential correspondence + closed-form / finite-difference oracle"),
  "C05": C("proof",
     "Theorems over R for arbitrary psi, grad psi and direction vectors: leaving the line search with tau>0 IS the sufficient decrease with the strictness factor; QUB at the reported iterate gives envelope descent by (1-gamma L)/(2 gamma)|p|^2 for ANY new step size (vector level, any box); trust-region acceptance gives non-increase; any number of backtracking steps keeps gamma L and never increases gamma. "
@@ -104,7 +104,7 @@ CHECKS = {
  "C13": C("proof",
     "14 theorems: on the status chain GENERATED from PANOC-OCP's private copy Converged <=> eps <= tolerance (and the copy equals the shared chain); the returned input sequence is u_hat = u + p with p the projected-gradient step, hence inside the input box componentwise; the criterion switch evaluates exactly the six supported criteria and each equals its documented formula at (u_k, u_hat_k, gamma_k); Converged certifies that residual <= tolerance; the gradient fed to it is the derivative of the forward cost (C12's adjoint theorem); multiplier / constraint-error relations per row as for the general solvers. "
     "Whole-loop model of PANOCOCPSolver::operator() (PanocOcpLoop.v, Properties_PANOCOCP.v: 20 theorems for every oracle incl. converged_certifies; whole-run correspondence through drv_ocp, Gauss-Newton block teacher-forced). Correspondence: teacher-forced on every progress record of the real PANOCOCPSolver (prox step, envelope, QUB, line search, criterion incl. the throwing case, status, free-index count, write_solution); oracle: residual recomputed from an independent roll-out with complex-step gradient, box membership, u = u_hat, multiplier relations, status / count clauses, GN always / periodically / never.",
-    "4/C13", TB_REALS + CORR + "GN and L-BFGS directions are oracles (nothing about them is needed for what Converged certifies); fmax/fmin modelled by cmax/cmin (equal without NaN); chain rule assumed; interpretation: the criteria are defined on the pair (u_k, u_hat_k), the returned point is u_hat_k (measured: residual at u_hat_k never exceeded tol).",
+    "4/C13", TB_REALS + CORR + "GN and L-BFGS directions are oracles in the theorems (nothing about them is needed for what Converged certifies) and are computed by Ocp.v / Lbfgs.v in the whole-run correspondence (nothing teacher-forced); C13_panoc_ocp_converged_is_stationary composes the loop model with C12's verified sweeps; fmax/fmin modelled by cmax/cmin (equal without NaN); chain rule assumed; interpretation: the criteria are defined on the pair (u_k, u_hat_k), the returned point is u_hat_k (measured: residual at u_hat_k never exceeded tol).",
     "Coq proofs on generated chain + OCP kernels + whole-loop PANOC-OCP model (whole-run correspondence) + record-level correspondence + independent roll-out oracle"),
  "C14": C("proof",
     "sparsity-conversions.hpp is TRANSLATED on every run (SparsityGen.v: all 9 converters, 45 definitions; SparsityGenEq.v: 86 equalities up to whole conversions; run against the implementation). "
